@@ -22,6 +22,13 @@ class C02(Prop):
     assumptions = ["float leaves are compared with rtol 1e-5 / atol 1e-6 (eager vs jit differ by 1 ulp on CVRP's penalty constant)"]
     quick_runs = 5
 
+    def select_configs(self, adapter: Any, tier: str) -> List[Dict[str, Any]]:
+        cfgs = adapter.configs()
+        if tier == "quick":
+            # quick configurations plus those flagged for C02 (generators that hand out one cached instance)
+            return [c for c in cfgs if c.get("quick") or c.get("c02")]
+        return cfgs
+
     def expand(self, task: Dict[str, Any]) -> List[Dict[str, Any]]:
         """Besides the multi-client simulation of (env, cfg) add, once per env, an OTHER_HISTORY task: the
         second configuration is exercised in a process that used the first configuration before."""
